@@ -76,7 +76,7 @@ type dynStats struct {
 
 func runDynamic(t Tools, dir string, seed uint64, tier string, out *vl.Out) dynStats {
 	r := vl.NewRng(seed ^ 0xC07D)
-	// quick: 7 x 4 x (3+1) = 112 executions + 138 of the regression corpus (3x32 + 24 + 3x6) = 250
+	// quick: 7 x 4 x (3+1) = 112 executions + 138 of the regression corpus (3x32 + 24 + 3x6) + 60 of the aimed programs (6x8 + 12) = 310
 	nProg, nOpt, nRuns, budget, limit := 7, 4, 3, 80, 25*time.Second
 	if tier == "thorough" {
 		nProg, nOpt, nRuns, budget, limit = 40, 10, 20, 250, 90*time.Second
@@ -138,6 +138,23 @@ func runDynamic(t Tools, dir string, seed uint64, tier string, out *vl.Out) dynS
 	maxShrinks, shrinkTotal := 4, 75*time.Second
 	if tier == "thorough" {
 		maxShrinks, shrinkTotal = 8, 240*time.Second
+	}
+	// a used output directory: one run into a fresh directory, one into a directory holding that output
+	// with a line appended to every file, on a two-line program, per backend
+	for _, be := range []string{"go", "fastgo"} {
+		tiny := Prog{Files: []IDLFile{{Name: "main0.thrift", Lines: []string{"namespace go p0.main", "struct A { 1: string a }"}}}}
+		to := OptSet{Name: "default", Backend: be}
+		st.Executions += 2
+		if td := differsStale(t, tiny, to, filepath.Join(dir, "stale")); td != nil && !staleReported {
+			staleReported = true
+			f := mkFail(tiny, to, td, 2)
+			f.Key = "nondeterministic:into-used-directory:" + be
+			f.What = "output written into a directory that holds files of a previous run differs from output written into a fresh directory"
+			in := f.Input.(ReplayInput)
+			in.Stale = true
+			f.Input = in
+			out.Fail(f)
+		}
 	}
 	// regression corpus first: the minimal witnesses of the three defects this check found (iteration
 	// order of a Go map reaching output bytes); each must give ONE hash over its runs. A Go 1.23 map of
@@ -217,27 +234,13 @@ func runDynamic(t Tools, dir string, seed uint64, tier string, out *vl.Out) dynS
 				// only the run into a directory holding (altered) files of a previous run differs: one
 				// finding for the whole run, reproduced on a two-line program, nothing to shrink
 				if d := compare(ref, c.res[nRuns]); d != nil {
-					st.CombosDiffering++
-					st.DifferingByKey[c.o.Backend+":stale-output"]++
-					if !staleReported {
-						staleReported = true
-						tiny := Prog{Files: []IDLFile{{Name: "main0.thrift", Lines: []string{"namespace go p0.main", "struct A { 1: string a }"}}}}
-						tp, to := tiny, OptSet{Name: "default", Backend: c.o.Backend}
-						td := differsStale(t, tp, to, filepath.Join(dir, "stale"))
-						st.Executions += 2
-						if td == nil {
-							tp, to, td = c.p, c.o, d
-						}
-						f := mkFail(tp, to, td, 2)
-						f.Key = "nondeterministic:into-used-directory:" + to.Backend
-						f.What = "output written into a directory that holds files of a previous run differs from output written into a fresh directory"
-						in := f.Input.(ReplayInput)
-						in.Stale = true
-						f.Input = in
-						out.Fail(f)
+					if staleReported {
+						st.CombosDiffering++
+						st.DifferingByKey[c.o.Backend+":stale-output"]++
+						os.RemoveAll(c.dir)
+						continue
 					}
-					os.RemoveAll(c.dir)
-					continue
+					first = d // a used directory is not the cause (probed above): an ordinary difference that showed late
 				}
 			}
 			if len(st.Samples) < 4 && ci%5 == 0 {
@@ -279,13 +282,14 @@ func runDynamic(t Tools, dir string, seed uint64, tier string, out *vl.Out) dynS
 func cmdRun(dir string, seed uint64, tier string, t Tools) {
 	out := vl.NewOut(dir)
 	r := vl.NewRng(seed)
-	nR, nD, nN, nV := 400, 120, 250, 150
+	nR, nD, nN, nV, nT := 400, 120, 250, 150, 12
 	if tier == "thorough" {
-		nR, nD, nN, nV = 4000, 1000, 2500, 1500
+		nR, nD, nN, nV, nT = 4000, 1000, 2500, 1500, 100
 	}
 	corrReplacer(r, out, nR)
 	corrDescriptor(r, out, nD)
 	corrConstMap(r, out, nV)
+	corrServiceThrows(r, out, dir, nT)
 	corrNamespace(r, out, nN)
 	var st dynStats
 	if t.Thriftgo != "" {
@@ -420,7 +424,20 @@ func regressionCorpus(tier string) []witness {
 	dupKeys := one("namespace go p0.main", "struct K { 1: string name, 2: i32 id }",
 		fmt.Sprintf("const map<K,string> M = {%s}", strings.Join(dupEnts, ", ")),
 		`struct S { 1: map<K,string> m = {{"name": "k", "id": 1}: "first", {"name": "k", "id": 1}: "second"} }`)
-	return []witness{
+	same := sameNameProg(vl.NewRng(7), 0, 4)
+	patchProg := one("namespace go p0.main", "struct A { 1: string a }", "service S { A get(1: string k) }")
+	sameRuns := 8
+	aimed := []witness{
+		{"same names in 4 includes: -r default template", same, OptSet{Name: "recurse", Pre: []string{"-r"}, Backend: "go"}, sameRuns},
+		{"same names in 4 includes: -r slim (ServiceThrows)", same, OptSet{Name: "recurse-slim", Pre: []string{"-r"}, Backend: "go", Opts: []string{"template=slim"}}, sameRuns},
+		{"same names in 4 includes: -r raw_struct, type meta", same, OptSet{Name: "recurse-raw_struct", Pre: []string{"-r"}, Backend: "go", Opts: []string{"template=raw_struct", "gen_type_meta"}}, sameRuns},
+		{"same names in 4 includes: slim with nested structs, setters, deep equal, reflection", same, OptSet{Name: "slim-helpers", Backend: "go",
+			Opts: []string{"template=slim", "enable_nested_struct", "gen_setter", "gen_deep_equal", "keep_unknown_fields", "with_reflection"}}, sameRuns},
+		{"same names in 4 includes: -r reflection and field masks", same, OptSet{Name: "recurse-field_mask", Pre: []string{"-r"}, Backend: "go", Opts: []string{"with_reflection", "with_field_mask"}}, sameRuns},
+		{"same names in 4 includes: -r fastgo no_fmt", same, OptSet{Name: "recurse-fastgo-no_fmt", Pre: []string{"-r"}, Backend: "fastgo", Opts: []string{"no_fmt"}}, sameRuns},
+		{"plugin patches with nested insertion points", patchProg, OptSet{Name: "plugin-patch", Backend: "go", Plugin: true, Patch: "p0/main/main0.go"}, 12},
+	}
+	return append([]witness{
 		{"descriptor: two namespaces (minimal)", one("namespace go p0.main", "namespace rs p0.main"), refl, 32},
 		{"fastgo imports: fmt and unsafe (minimal)", one("struct S { 1: bool a }"), nofmt, 32},
 		{"plugin request: two names (minimal)", one("struct A {}", "struct B {}"), plug, 32},
@@ -428,7 +445,7 @@ func regressionCorpus(tier string) []witness {
 		{"descriptor: 8 includes, 8 namespaces, 8 annotations, 8 map entries", wide, refl, wideRuns},
 		{"fastgo imports: 8 included packages", wide, nofmt, wideRuns},
 		{"plugin request: 8 names, 8 includes", wide, plug, wideRuns},
-	}
+	}, aimed...)
 }
 
 // differsStale: one run into a fresh directory, one into a directory holding that output with a
